@@ -198,6 +198,38 @@ def search(ck, tier, seed):
                                            fam, box, K, kind, float(x32[sel][i]), float(l32[sel][i]), float(l64[sel][i])), case)
 
 
+def wide_tails(ck, tier, seed):
+    """the four unconstrained spline functions in float32 with LARGE tail bounds (5 .. 50): rounding of knots and sums scales with
+    the bound; absolute tolerances tuned at tail bound 1 (in a check, a pin, a comparison) stop holding"""
+    for fam in sh.FAMILIES:
+        for B in (5.0, 8.0, 20.0, 50.0):
+            for K in (4, 8):
+                for row in range(4 if tier == "quick" else 16):
+                    g = tgen(seed, "c19wide", fam, B, K, row)
+                    p64 = sh.gen_params(fam, K, True, "normal", g)
+                    p32 = {k: v.float() for k, v in p64.items()}
+                    x64 = torch.linspace(-0.97 * B, 0.97 * B, 9, dtype=torch.float64)
+                    for inverse in (False, True):
+                        a = sh.call(fam, inverse, x64.float(), p32, tail_bound=B)
+                        b = sh.call(fam, inverse, x64.float().double(), p64, tail_bound=B)
+                        ck.case(("c19-wide-tails", fam, B, K, row, inverse), nontrivial=True)
+                        case = {"search": "wide-tails-f32", "family": fam, "tail_bound": B, "K": K, "row": row, "inverse": inverse, "seed": seed}
+                        if b[0] != "ok":
+                            continue
+                        if a[0] != "ok":
+                            ck.finding("precision:spline-float32-raises:%s" % fam,
+                                       "unconstrained %s spline, tail bound %g, %s: float32 raises %s (%s), float64 evaluates" % (fam, B, "inverse" if inverse else "forward", a[1], str(a[2])[:80]), case)
+                            break
+                        if fam == "cubic" and inverse:
+                            continue          # the cubic inverse's accuracy is the recorded finding
+                        slope = torch.exp(b[1][1].clamp(max=12))
+                        if not bool(torch.isfinite(a[1][0]).all()) or bool(((a[1][0].double() - b[1][0]).abs() > 1e-4 * B * (1 + slope)).any()):
+                            ck.finding("precision:spline-float32-disagrees:%s" % fam,
+                                       "unconstrained %s spline, tail bound %g, %s: max error %.3g" % (
+                                           fam, B, "inverse" if inverse else "forward", float((a[1][0].double() - b[1][0]).abs().max())), case)
+                            break
+
+
 def dense_inverse(ck, tier, seed):
     """the inverse direction of the four spline functions in float32 on a dense grid of the output interval: root formulas
     that cancel lose digits only next to isolated points inside a bin, which a handful of knots never hits"""
@@ -244,6 +276,7 @@ def run(tier, seed):
     ck.sample({"generated_table": "Gen/Tables.v dtype_table"})
     search(ck, tier, seed)
     dense_inverse(ck, tier, seed)
+    wide_tails(ck, tier, seed)
     return ck.finish()
 
 
